@@ -14,6 +14,7 @@ import (
 	"time"
 
 	"github.com/Comcast/rulio/core"
+	"github.com/Comcast/rulio/sys"
 	"verif/harness/enc"
 )
 
@@ -22,6 +23,9 @@ type Config struct {
 	Store    string // "mem" | "bolt"
 	MaxFacts int
 	Locs     []string
+	Via      string // "" (core.Location directly) | "system" (through sys.System)
+	Sys      SysConfig
+	BoltFile string
 }
 
 // Recorder accumulates events of many traces and writes them with a header.
@@ -79,6 +83,8 @@ type World struct {
 	RO       map[string]bool
 	Events   []map[string]interface{}
 	Prefix   string // storage-level name prefix making this world's names unique
+	Sys      *sys.System
+	Cron     *RecCron
 	closers  []func()
 }
 
@@ -127,7 +133,15 @@ func (w *World) newLocation(name string) (*core.Location, error) {
 func NewWorld(cfg Config, r *Recorder, store core.Storage) (*World, error) {
 	w := &World{Cfg: cfg, R: r, Store: store, Locs: map[string]*core.Location{}, RO: map[string]bool{}}
 	w.Provider = core.NewSimpleLocationProvider(w.Locs)
+	if cfg.Via == "system" {
+		if err := w.initSystem(cfg.Sys); err != nil {
+			return nil, err
+		}
+	}
 	for _, n := range cfg.Locs {
+		if cfg.Via == "system" {
+			break
+		}
 		loc, err := w.newLocation(n)
 		if err != nil {
 			return nil, err
@@ -139,7 +153,8 @@ func NewWorld(cfg Config, r *Recorder, store core.Storage) (*World, error) {
 		names = append(names, n)
 	}
 	w.Events = append(w.Events, map[string]interface{}{"ev": "reset", "locs": names,
-		"state": cfg.State, "store": cfg.Store})
+		"state": cfg.State, "store": cfg.Store, "via": cfg.Via, "check": cfg.Via == "system" && cfg.Sys.CheckExistence,
+		"ttl": cfg.Sys.TTL})
 	return w, nil
 }
 
@@ -255,8 +270,16 @@ func WaitMidSecond() int64 {
 func (w *World) diskIds() map[string]interface{} {
 	ctx := quietCtx()
 	acc := map[string]interface{}{}
+	store := w.Store
+	if w.Sys != nil {
+		store, _ = w.Sys.PeekStorage(ctx)
+	}
 	for _, n := range w.Cfg.Locs {
-		pairs, err := w.Store.Load(ctx, n)
+		if store == nil {
+			acc[n] = []string{}
+			continue
+		}
+		pairs, err := store.Load(ctx, n)
 		ids := make([]string, 0, len(pairs))
 		if err == nil {
 			for _, p := range pairs {
@@ -297,6 +320,10 @@ func (w *World) Do(op Op) Res {
 	loc := w.Locs[op.Loc]
 	res := Res{C: "ok"}
 	val := copyMap(op.Val) // the code may modify what it is given
+	if w.Sys != nil {
+		w.doSys(ctx, op, &res)
+		goto recorded
+	}
 	switch op.Op {
 	case "AddFact":
 		id, err := loc.AddFact(ctx, op.Id, core.Map(val))
@@ -351,52 +378,8 @@ func (w *World) Do(op Op) Res {
 			res.Ids = append(res.Ids, id)
 		}
 	case "ProcessEvent":
-		fr, cond := loc.ProcessEvent(ctx, core.Map(val))
-		if fr == nil || fr.Disposition == nil || fr.Disposition.Msg != "complete" {
-			res.C = "error"
-			if fr != nil && fr.Disposition != nil {
-				res.Msg = fr.Disposition.Msg
-			}
-		}
-		_ = cond
-		if res.C == "ok" {
-			for _, er := range fr.Children {
-				bss := make([]interface{}, 0, len(er.Bindingss))
-				for _, bs := range er.Bindingss {
-					b := map[string]interface{}{}
-					for k, v := range bs {
-						if k == "?event" || k == "?location" || k == "?ruleId" {
-							continue // added for the condition; not part of the `when` match
-						}
-						b[k] = v
-					}
-					bss = append(bss, w.R.T.EncodeBindings(deepCopy(b).(map[string]interface{})))
-				}
-				res.Found = append(res.Found, map[string]interface{}{"id": er.Rule.Id, "bss": bss,
-					"body": w.R.T.Encode(nil)})
-				for _, erc := range er.Children {
-					node := map[string]interface{}{"id": er.Rule.Id,
-						"wb": w.R.T.EncodeBindings(deepCopy(map[string]interface{}(erc.Bindings)).(map[string]interface{})),
-						"c":  "ok"}
-					if erc.Disposition == nil || erc.Disposition.Msg != "complete" {
-						node["c"] = "err"
-					}
-					execs := make([]interface{}, 0)
-					for _, era := range erc.Children {
-						code, _ := era.Act.Code.(string)
-						ok := era.Disposition != nil && era.Disposition.Msg == "complete"
-						execs = append(execs, map[string]interface{}{
-							"b":    w.R.T.EncodeBindings(deepCopy(map[string]interface{}(era.Bindings)).(map[string]interface{})),
-							"code": code, "ok": ok, "val": w.R.T.Encode(requestion(deepCopy(era.Value)))})
-					}
-					node["execs"] = execs
-					res.Tree = append(res.Tree, node)
-				}
-			}
-			for _, v := range fr.Values {
-				res.Vals = append(res.Vals, w.R.T.Encode(requestion(deepCopy(v))))
-			}
-		}
+		fr, _ := loc.ProcessEvent(ctx, core.Map(val))
+		w.recordTree(fr, &res)
 	case "SetReadOnly":
 		loc.SetReadOnly(ctx, op.Flag)
 	case "Reload":
@@ -409,6 +392,7 @@ func (w *World) Do(op Op) Res {
 	default:
 		panic("unknown op " + op.Op)
 	}
+recorded:
 	after := time.Now().Unix()
 
 	t := w.R.T
@@ -438,6 +422,19 @@ func (w *World) Do(op Op) Res {
 	if op.Val != nil {
 		v = map[string]interface{}(op.Val)
 	}
+	if (op.Op == "CreateLocation" || op.Op == "Clear") && w.Sys != nil {
+		// the marker fact the system stored (its timestamp is not predictable)
+		if store, _ := w.Sys.PeekStorage(ctx); store != nil {
+			pairs, _ := store.Load(quietCtx(), op.Loc)
+			for _, p := range pairs {
+				if string(p.K) == "!.createdAt" {
+					var m interface{}
+					json.Unmarshal(p.V, &m)
+					v = m
+				}
+			}
+		}
+	}
 	ev := map[string]interface{}{
 		"ev": "op", "op": op.Op, "loc": op.Loc, "id": op.Id, "rid": res.Id, "val": t.Encode(v),
 		"inh": op.Inh, "wk": op.WK, "rk": op.RK, "now": now, "flag": op.Flag, "names": names,
@@ -464,6 +461,53 @@ func nonNilMaps(xs []map[string]interface{}) []map[string]interface{} {
 		return []map[string]interface{}{}
 	}
 	return xs
+}
+
+// recordTree projects ProcessEvent's work tree into the result.
+func (w *World) recordTree(fr *core.FindRules, res *Res) {
+	if fr == nil || fr.Disposition == nil || fr.Disposition.Msg != "complete" {
+		res.C = "error"
+		if fr != nil && fr.Disposition != nil {
+			res.Msg = fr.Disposition.Msg
+		}
+		return
+	}
+	for _, er := range fr.Children {
+		bss := make([]interface{}, 0, len(er.Bindingss))
+		for _, bs := range er.Bindingss {
+			b := map[string]interface{}{}
+			for k, v := range bs {
+				if k == "?event" || k == "?location" || k == "?ruleId" {
+					continue // added for the condition; not part of the `when` match
+				}
+				b[k] = v
+			}
+			bss = append(bss, w.R.T.EncodeBindings(deepCopy(b).(map[string]interface{})))
+		}
+		res.Found = append(res.Found, map[string]interface{}{"id": er.Rule.Id, "bss": bss,
+			"body": w.R.T.Encode(nil)})
+		for _, erc := range er.Children {
+			node := map[string]interface{}{"id": er.Rule.Id,
+				"wb": w.R.T.EncodeBindings(deepCopy(map[string]interface{}(erc.Bindings)).(map[string]interface{})),
+				"c":  "ok"}
+			if erc.Disposition == nil || erc.Disposition.Msg != "complete" {
+				node["c"] = "err"
+			}
+			execs := make([]interface{}, 0)
+			for _, era := range erc.Children {
+				code, _ := era.Act.Code.(string)
+				ok := era.Disposition != nil && era.Disposition.Msg == "complete"
+				execs = append(execs, map[string]interface{}{
+					"b":    w.R.T.EncodeBindings(deepCopy(map[string]interface{}(era.Bindings)).(map[string]interface{})),
+					"code": code, "ok": ok, "val": w.R.T.Encode(requestion(deepCopy(era.Value)))})
+			}
+			node["execs"] = execs
+			res.Tree = append(res.Tree, node)
+		}
+	}
+	for _, v := range fr.Values {
+		res.Vals = append(res.Vals, w.R.T.Encode(requestion(deepCopy(v))))
+	}
 }
 
 // Void reports whether any operation straddled a second boundary.
